@@ -34,3 +34,18 @@ def proc_name_bytes(max_bytes=19):
     uni = st.text(st.characters(min_codepoint=0x20, max_codepoint=0x2fff, exclude_categories=('Cs', 'Cc')),
                   min_size=0, max_size=max_bytes).map(lambda s: s.encode('utf8')).filter(lambda b: len(b) <= max_bytes)
     return st.one_of(ascii_name, ascii_name, uni)
+
+
+def expand_words(seed, k=0):
+    """four 64-bit words derived deterministically from one drawn seed (splitmix64); small seeds give small words"""
+    if seed < 4096:
+        return ((seed + k) % 7, (seed >> 2) + k, (seed >> 4) % 5, seed % 3)
+    out = []
+    x = (seed + 0x9e3779b97f4a7c15 * (k + 1)) & M64
+    for _ in range(4):
+        x = (x + 0x9e3779b97f4a7c15) & M64
+        z = x
+        z = ((z ^ (z >> 30)) * 0xbf58476d1ce4e5b9) & M64
+        z = ((z ^ (z >> 27)) * 0x94d049bb133111eb) & M64
+        out.append(z ^ (z >> 31))
+    return tuple(out)
